@@ -11,6 +11,7 @@ from collections import defaultdict
 from functools import partial
 import inspect
 from itertools import chain
+import keyword
 import operator as op
 import re
 import string
@@ -303,7 +304,7 @@ def _parse_object(
     title = schema.get("title", schema.get("_x_autotitle"))
     if not title:
         raise SchemaParseError.missing_title(schema)
-    title = _title_format(title)
+    title = _class_name(title)
     properties = schema.get("properties", {})
     properties.update(
         {
@@ -518,6 +519,43 @@ def _keyword_filter(type_: Type) -> Callable[[Dict[str, Any]], Dict[str, Any]]:
         return {key: value for key, value in schema.items() if key in args}
 
     return _filter
+
+
+# Names which generated modules bind themselves (imports).
+_RESERVED_CLASS_NAMES = (
+    "Any",
+    "List",
+    "Union",
+    "Maybe",
+    "Property",
+    "AllOf",
+    "AnyOf",
+    "Array",
+    "Boolean",
+    "CompositionElement",
+    "Element",
+    "Integer",
+    "Not",
+    "Nothing",
+    "Null",
+    "Number",
+    "Object",
+    "OneOf",
+    "String",
+)
+
+
+def _class_name(title: str) -> str:
+    """Convert a schema title to a usable class name.
+
+    Titles with no usable characters become ``Blank``. Keywords and names
+    which generated modules import are suffixed with an underscore, in the
+    same way as reserved attribute names.
+    """
+    name = _title_format(title) or "Blank"
+    if keyword.iskeyword(name) or name in _RESERVED_CLASS_NAMES:
+        name = f"{name}_"
+    return name
 
 
 def _title_format(name: str) -> str:
